@@ -400,7 +400,12 @@ class IndependentExactGPyTorchModel(GPyTorchMultioutputExactModel):
         # Last column of X_t are sample space indices.
         test_X = self.to_tensor(test_X[..., : self.input_dim])
 
-        with torch.no_grad(), torch.autograd.set_detect_anomaly(True):
+        # Without training data the posterior is the prior; gpytorch's exact prediction cannot
+        # handle zero training points together with a task-noise matrix.
+        no_data = self.model.train_targets.numel() == 0
+        with torch.no_grad(), torch.autograd.set_detect_anomaly(True), gpytorch.settings.prior_mode(
+            no_data
+        ):
             res = self.model(test_X)
 
             # Drop the sample dimension; keep the (N, output_dim) shape also for N = 1
